@@ -83,7 +83,7 @@ func (r *Reader) newExifBox(b *box) (inner box, err error) {
 		return
 	}
 	var size int
-	for i := 0; i < len(buf); i += 4 {
+	for i := 0; i+8 <= len(buf); i += 4 {
 		if string(buf[i+4:i+4+4]) == "Exif" {
 			size = int(bmffEndian.Uint32(buf[i:i+4])) + i
 			break
